@@ -743,7 +743,7 @@ func (x *G) boundary() []*node {
 }
 
 func gen(g *hx.Gen) {
-	n := g.Count(10000, 800000)
+	n := g.Count(10000, 400000)
 	r := g.R
 	if g.Thorough() {
 		// 2^24 boundaries: 24-bit prefix overflow / maximum, ASN.1 4-octet long form (16 MiB buffers: thorough tier only)
